@@ -85,6 +85,9 @@ func (x *Exec) oblige(st *State, name, kind string, pos token.Pos, clause, goal 
 	}
 	o := &Obligation{Name: name, Func: x.vc.fn, Kind: kind, Pos: x.e.pos(pos), Clause: clause,
 		PC: append([]string(nil), st.pc...), Goal: goal, Extra: extra, vc: x.vc, Watch: x.curWatch}
+	if st.secStart != nil {
+		o.sec = st.secStart
+	}
 	x.vc.obls = append(x.vc.obls, o)
 }
 
